@@ -4,5 +4,6 @@ CONSTANTS
   PowDur = 2
   FixDur = 2
   RestDur = 2
+  InstDur = 2
 INVARIANT TypeOK
 CHECK_DEADLOCK FALSE
